@@ -158,7 +158,7 @@ func init() {
 			"private snapshot (R-FRESH).",
 		NotDecided:  "The arithmetic of numeric ranges and which elements are visited; the parser's static scope tracking (see C05).",
 		Assumptions: []string{},
-		Rules:       []*Rule{ruleScopePairEval, ruleSignal, ruleFresh, ruleScopePairParser},
+		Rules:       []*Rule{ruleScopePairEval, ruleSignal, ruleFresh, ruleScopePairParser, ruleNaNGuard},
 	})
 }
 
@@ -199,7 +199,7 @@ func init() {
 			"or diagnosed (R-LISTUSE).",
 		NotDecided:  "The content of accepts/matches/combineTypes (which cells of the matrix are true) and the operand checks' predicates — value-level.",
 		Assumptions: []string{},
-		Rules:       []*Rule{ruleFixed, ruleConcrete, ruleTypeRel, ruleAcceptWrap, ruleMapRange, ruleListUse},
+		Rules:       []*Rule{ruleFixed, ruleConcrete, ruleTypeRel, ruleAcceptWrap, ruleMapRange, ruleListUse, ruleAssignTarget},
 	})
 	Register(&Property{
 		ID: "C06",
@@ -240,7 +240,7 @@ func init() {
 			"carry a convertible type into wrapAny (R-FIXED); scopes are paired so a variable's run-time value has its static type (R-SCOPEPAIR/evaluator).",
 		NotDecided:  "That the parser's typing of operands matches the evaluator's assertions in evalBinaryExpr/normalizeIndex beyond the operator matrix, panics inside the Go standard library for exotic values, memory exhaustion.",
 		Assumptions: []string{"element assertions inside array arguments (poly) are not checked"},
-		Rules:       []*Rule{ruleBuiltinSig, f2iRule("pkg/evaluator", 4), exhaustRule("eval", 25), fieldCovRule("eval"), ruleAcceptWrap, ruleFixed, ruleScopePairEval, ruleMapEq, ruleTermConj, ruleEvalMisc},
+		Rules:       []*Rule{ruleBuiltinSig, f2iRule("pkg/evaluator", 4), exhaustRule("eval", 25), fieldCovRule("eval"), ruleAcceptWrap, ruleFixed, ruleScopePairEval, ruleMapEq, ruleTermConj, ruleEvalMisc, ruleAssignTarget},
 	})
 	Register(&Property{
 		ID: "C13",
